@@ -22,3 +22,4 @@ CFG = dict(
 CFG["rule"] += ' Added after independently written breaking changes: The scheduler is started through Start() or the blocking Run(); entries are added through Schedule or, as spec text, through AddFunc/AddJob (seconds-enabled parser, Cron location).'
 CFG["rule"] += ' Callback points with two callers: Stop (or Entries) is already waiting for the scheduler when Remove is called from a third goroutine; a Remove that returns inside the wake-up is judged like any returned Remove.'
 CFG["rule"] += ' TestCronLoggerPoints: the scheduler\'s "stop" report as a schedule point (wait for Stop to return, restart through Start or Run, then the next Stop must hold). TestCronChainsPerEntry: WithChain(Recover / DelayIfStillRunning / SkipIfStillRunning) with jobs that run until released, per-entry model (non-trivial: an entry started while another entry\'s job runs). Callback points with Entries and Stop both waiting: both return.'
+CFG["rule"] += ' TestCronParallelSchedule: 8 goroutines add entries at once (stopped and running cron): all ids differ, Entries lists all, removing one leaves the others started.'
